@@ -29,6 +29,8 @@ func init() {
 			{ID: "C19-R3", Title: "codecs pair known inverse functions over the whole input", Floor: 5, Run: c19r3},
 			{ID: "C19-R4", Title: "string methods return their Go namesake's result on every path", Floor: 8, Run: c19r4},
 			{ID: "C19-R5", Title: "encoders return storage of their own (nothing taken from and returned to a pool)", Floor: 1, Run: func(c *core.Ctx) { pooledResult(c) }},
+			{ID: "C19-R6", Title: "results are cached only after their error was checked", Floor: 3, Run: func(c *core.Ctx) { publishBeforeErrorCheck(c) }},
+			{ID: "C19-R7", Title: "MarshalJSON methods quote with encoding/json", Floor: 3, Run: jsonMarshalersUseJSON},
 		},
 	})
 }
